@@ -30,6 +30,11 @@ def templates(tier, seed):
                 tag = "+".join(f"{k}={v}" for k, v in extra.items()) or "plain"
                 ts.append(Template(f"D/{depth}/{''.join(arr)}/{tag}/N={N}", t_lazy, ("frame", N, dict(arr=arr, depth=depth, **extra))))
         ts.append(Template(f"F/ab/coerce_a_int/N={N}", t_lazy, ("frame", N, dict(arr=["a", "b"], coerce_a_int=True))))
+        ts.append(Template(f"F/ab/coerce_a_int+index_coerce_float/N={N}", t_lazy, ("frame", N, dict(arr=["a", "b"], coerce_a_int=True, index_coerce_float=True))))
+        ts.append(Template(f"F/ab/index_coerce_float/N={N}", t_lazy, ("frame", N, dict(arr=["a", "b"], index_coerce_float=True))))
+    # a MultiIndex frame: index-level failure cases name the row label (the tuple of level values), not a position
+    for N in Ns:
+        ts.append(Template(f"MI/frame_multiindex/N={N}", tmpl.pick(tmpl.index_case, ["report", "channel"]), ("frame_multiindex", N, dict(lazy=True))))
     import tmpl_pl
 
     ts += [Template(tid, tmpl.pick(fn, LABELS), args) for tid, fn, args in tmpl_pl.lazy_cases(tier)]
